@@ -419,3 +419,77 @@ def driver_options(lib):
     return {"debug": True, "doxygen": o["doxygen"], "literalinclude": o["literalinclude"],
             "show_splicer_comments": o["show_splicer_comments"], "C_line_length": o["line"], "F_line_length": o["line"],
             "F_CFI": o["F_CFI"]}
+
+
+_WIDE = None
+
+
+def cfg_sets():
+    """The row sets of specs/LibGen.cfg (single source of truth for the domain)."""
+    txt = open(os.path.join(common.SPECS, "LibGen.cfg")).read()
+    out = {}
+    for m in re.finditer(r"^\s*(\w+)\s*=\s*\{([^}]*)\}", txt, re.M):
+        out[m.group(1)] = set(re.findall(r'"([^"]+)"', m.group(2)))
+    return out
+
+
+def wide_library(rows=None, class_=True, defaults=False, **opts):
+    """The wide member of the domain printed by specs/LibGenPairs.tla, optionally restricted to the functions
+    whose parameter rows all lie in `rows` (e.g. PyRows, LuaRows)."""
+    global _WIDE
+    if _WIDE is None:
+        r = common.run_tlc("LibGenPairs", "LibGenPairs", workers=1, timeout=300)
+        if r.error:
+            raise common.MachineryError("LibGenPairs: %s\n%s" % (r.error, r.out[-1500:]))
+        m = re.search(r'<<\s*"LIBGEN",\s*"((?:[^"\\]|\\.)*)"\s*>>', r.out, re.S)
+        if not m:
+            raise common.MachineryError("LibGenPairs printed no description")
+        _WIDE = json.loads(m.group(1).replace("\n", "").encode().decode("unicode_escape"))
+    lib = json.loads(json.dumps(_WIDE))
+    if rows is not None:
+        lib["funcs"] = [f for f in lib["funcs"] if all(p in rows for p in f["params"])]
+    if defaults:
+        # AddDefaults of the grammar: a trailing parameter passed by value gets a default value
+        for f in lib["funcs"]:
+            if len(f["params"]) == 2 and f["params"][1] in ("int_v", "double_v", "bool_v", "long_v"):
+                if f["result"] == "str_cref" and opts.get("wrap_python", True):
+                    continue    # known finding C05 compile:py:'SHCXX_rv'_declared_as_reference...: does not compile
+                f["ndef"] = 1
+    lib["class"] = class_
+    lib["opts"].update(opts)
+    return lib
+
+
+STR_ROWS = {"cstr_in", "str_cref", "str_ref_inout", "str_ref_out"}
+STR_RESULTS = {"cstr", "str_cref"}
+VEC_BUF_ROWS = {"vec_in", "vec_inout", "vec_out_alloc"}
+CDESC_RESULTS = {"iptr3"}
+
+
+def cfi_conflict(f):
+    """Known finding (KNOWN_FINDINGS.txt, C05 shroud:Error_with_template...): with F_CFI a function that has a
+    character/string argument or result gets a CFI clone only; its std::vector arguments and a pointer result
+    with a declared extent are then generated without the bufferify treatment they need: Shroud stops with
+    'Error with template', or the C wrapper / the Fortran wrapper does not compile."""
+    stringy = f["result"] in STR_RESULTS or bool(set(f["params"]) & STR_ROWS)
+    return stringy and (bool(set(f["params"]) & VEC_BUF_ROWS) or f["result"] in CDESC_RESULTS)
+
+
+def without_cfi_conflict(lib):
+    if not lib["opts"].get("F_CFI"):
+        return lib
+    keep = []
+    remap = {}
+    for i, f in enumerate(lib["funcs"], 1):
+        if cfi_conflict(f):
+            continue
+        f = dict(f)
+        if f["kind"] == "overload":
+            if f["of"] not in remap:
+                f = dict(f, kind="plain")
+                f.pop("of")
+            else:
+                f["of"] = remap[f["of"]]
+        keep.append(f)
+        remap[i] = len(keep)
+    return dict(lib, funcs=keep)
